@@ -1,5 +1,8 @@
 """CrossHair engine: run the contract functions of harness/ch_<prop>.py, one CrossHair process per shard.
 
+The condition functions in harness/ch_*.py state their argument domains as `require:` lines (NOT CrossHair contracts: a
+callee with a contract would be summarised by its postcondition instead of being executed); the generated wrappers turn them
+into `pre:` lines and carry the `post: __return__` contract.
 A shard fixes some leading selector arguments of a condition function to constants (generated wrapper) so that every
 condition can reach `Confirmed over all paths` inside its time-out.  Verdicts:
   Confirmed over all paths  -> holds for all argument values of that shard
@@ -35,8 +38,8 @@ def _gen_module(prop, shards):
         pre = []
         for l in doc.splitlines():
             l = l.strip()
-            if l.startswith('pre:'):
-                cond = l[4:].strip()
+            if l.startswith('require:'):
+                cond = l[8:].strip()
                 for k, v in fixed.items():
                     cond = re.sub(rf'\b{k}\b', repr(v), cond)
                 pre.append('    pre: ' + cond)
@@ -77,12 +80,22 @@ def _one(args):
 def run(prop, tier, timeout=None, workers=16):
     base = importlib.import_module(f"harness.ch_{prop.lower()}")
     shards = base.shards(tier)
+    witness = getattr(base, 'WITNESS', None)
+    if witness:
+        shards = [(witness, {})] + list(shards)
     modname, names = _gen_module(prop, shards)
     timeout = timeout or (40 if tier == 'quick' else 240)
     t0 = time.time()
     with ThreadPoolExecutor(max_workers=workers) as tp:
         res = list(tp.map(_one, [(modname, n, fn, fixed, timeout) for n, fn, fixed in names]))
     findings = []
+    witness_ok = None
+    if witness:
+        w = res[0]
+        witness_ok = w['verdict'] == 'counterexample'
+        res = res[1:]
+        if not witness_ok:
+            raise RuntimeError(f"CrossHair reachability witness {witness} was not refuted ({w['verdict']}): the conditions would pass vacuously\n{w['raw']}")
     for r in res:
         if r['verdict'] != 'counterexample':
             continue
@@ -115,7 +128,7 @@ def run(prop, tier, timeout=None, workers=16):
         'engine': 'crosshair 0.0.110', 'module': f"harness/ch_{prop.lower()}.py", 'conditions': len(res),
         'confirmed_over_all_paths': confirmed, 'counterexamples': len(findings), 'inconclusive': len(incon),
         'inconclusive_shards': [(r['shard'], r['fixed'], r['raw'][-120:]) for r in incon[:10]],
-        'per_condition_timeout_s': timeout, 'wall_s': round(time.time() - t0, 1),
+        'per_condition_timeout_s': timeout, 'reachability_witness_refuted': witness_ok, 'wall_s': round(time.time() - t0, 1),
         'evaluations': len(res), 'distinct_nontrivial': confirmed + len(findings),
         'queries': 0, 'solver_s': round(sum(r['wall_s'] for r in res), 1),
         'findings': findings,
